@@ -95,6 +95,8 @@ def _ops():
         add("join(URL(%r))" % r, lambda u, r=r: u.join(impl.URL(r)))
     add("URL('http://b.org/x/y?z').join(u)", lambda u: impl.URL("http://b.org/x/y?z").join(u))
     add("pickle", lambda u: pickle.loads(pickle.dumps(u)))
+    add("pickle protocol 0", lambda u: pickle.loads(pickle.dumps(u, protocol=0)))   # rebuilt through copyreg._reconstructor, not URL.__new__
+    add("pickle protocol 1", lambda u: pickle.loads(pickle.dumps(u, protocol=1)))
     add("copy", lambda u: copy.copy(u))
     add("URL(str(u))", lambda u: impl.URL(str(u)))
     add("URL(_S(str(u)))", lambda u: impl.URL(_S(str(u))))
